@@ -9,3 +9,12 @@
 ; byte-wise equality of two slices (bytes.Equal): an equivalence on contents
 (declare-fun bytes_equal ((Array Int Int) Int Int (Array Int Int) Int Int) Bool)
 (assert (forall ((a (Array Int Int)) (o Int) (n Int)) (! (bytes_equal a o n a o n) :pattern ((bytes_equal a o n a o n)))))
+; strings and paths are opaque values; these are the (uninterpreted) functions the
+; trusted contracts of path/filepath and strings are stated with
+(declare-fun path_clean (Int) Int)
+(declare-fun path_isabs (Int) Bool)
+(declare-fun path_dir (Int) Int)
+(declare-fun path_join (Int Int) Int)
+(declare-fun has_prefix (Int Int) Bool)
+(declare-fun str_contains (Int Int) Bool)
+(declare-fun trim_prefix (Int Int) Int)
